@@ -74,6 +74,7 @@ type Gen struct {
 	cur   *ident          // identity of the op just generated (nil for C/U/T/E)
 	queue []func() string // scripted continuation (capture toggle, contention for one offer)
 	alpha []uint32
+	Fresh bool   // histf: a fresh buffer per frame (default: one shared receive buffer)
 	Stale [2]int // when non-zero: generate against a handler that loaded a stale lease file (home bits, netfilter bits); IP source forced to 0
 }
 
@@ -140,11 +141,36 @@ func (g *Gen) discover(id *ident, newXid bool, req *uint32) string {
 	return m.Token()
 }
 
-func (g *Gen) selectOffer(id *ident) string {
+// selectOffer: the SELECTING REQUEST for the identity's last offer; with deviate, one field differs from
+// the DISCOVER's transaction while the frame layout stays the same (same options, same lengths, so every
+// field lands on the offsets the previous frame used in a shared receive buffer).
+func (g *Gen) selectOffer(id *ident) string { return g.selectOfferDev(id, g.R.Chance(25)) }
+
+func (g *Gen) selectOfferDev(id *ident, deviate bool) string {
 	m := g.msg('R', id)
 	m.Req, m.Sid = p32(id.offer), p32(g.C.HostIP)
 	if id.offer == 0 {
 		m.Req = p32(g.anyIP())
+	}
+	if deviate {
+		switch g.R.Intn(5) {
+		case 0, 1: // a transaction id we never made an offer under
+			m.Xid = id.xid ^ 0x01010101
+			if g.R.Bool() {
+				m.Xid = xids[g.R.Intn(len(xids))]
+			}
+		case 2: // another hardware address under the same client id
+			m.Chaddr = g.macs[(id.mac+1+g.R.Intn(2))%3]
+		case 3: // another requested address
+			m.Req = p32(g.anyIP())
+		default: // a client id of the same length that is not ours
+			if id.hasCid && len(id.cid) > 0 {
+				m.Cid = append([]byte{}, id.cid...)
+				m.Cid[len(m.Cid)-1] ^= 0x10
+			} else {
+				m.Sid = p32(g.C.RouterIP)
+			}
+		}
 	}
 	return m.Token()
 }
@@ -283,11 +309,8 @@ func (g *Gen) next() string {
 		m.Prl = prls[r.Intn(len(prls))]
 		m.Bflag = r.Chance(20)
 		switch q := r.Intn(100); {
-		case q < 45: // SELECT of our offer
-			m.Req, m.Sid = p32(id.offer), p32(g.C.HostIP)
-			if id.offer == 0 {
-				m.Req = p32(g.anyIP())
-			}
+		case q < 45: // SELECT of our offer (a quarter with one field outside the transaction)
+			return g.selectOffer(id)
 		case q < 55: // SELECT of another server
 			m.Req, m.Sid = p32(g.anyIP()), p32(g.C.RouterIP)
 		case q < 68: // RENEW
@@ -384,6 +407,9 @@ func (g *Gen) History(depth int) []string {
 	} else {
 		g.sv = NewServer(g.C)
 	}
+	if !g.Fresh {
+		g.sv.Shared = make([]byte, 1514)
+	}
 	defer g.sv.Close()
 	var ops []string
 	for n := 0; n < depth; n++ {
@@ -419,6 +445,7 @@ func Generate(r *lib.Run, level int, modes []int, nCfg int) {
 		cfg   Cfg
 		depth int
 		stale [2]int
+		fresh bool
 	}
 	jobs := make(chan job, 64)
 	done := make(chan bool)
@@ -428,9 +455,14 @@ func Generate(r *lib.Run, level int, modes []int, nCfg int) {
 			for j := range jobs {
 				g := NewGen(lib.NewRand(j.seed), j.cfg, level)
 				g.Stale = j.stale
+				g.Fresh = j.fresh
 				ops := g.History(j.depth)
 				args := append(j.cfg.Tokens(), ops...)
 				kind := "hist"
+				if j.fresh {
+					kind = "histf"
+					r.Stat("class.fresh-buffers", 1)
+				}
 				if j.stale[0] != 0 {
 					kind = "stale"
 					args = append(append(j.cfg.Tokens(), strconv.Itoa(j.stale[0]), strconv.Itoa(j.stale[1])), ops...)
@@ -462,6 +494,8 @@ func Generate(r *lib.Run, level int, modes []int, nCfg int) {
 			if j.stale[1] < j.stale[0] {
 				j.stale[1] = j.stale[0]
 			}
+		} else if i%4 == 1 { // a quarter of the histories with a buffer of its own per frame
+			j.fresh = true
 		}
 		jobs <- j
 	}
@@ -497,7 +531,7 @@ func Corpus(r *lib.Run) {
 		}
 		for _, l := range strings.Split(string(b), "\n") {
 			f := strings.Fields(l)
-			if len(f) > 11 && (f[0] == "hist" || f[0] == "stale") {
+			if len(f) > 11 && (f[0] == "hist" || f[0] == "histf" || f[0] == "stale") {
 				r.Do(f[0], f[1:]...)
 				r.Stat("class.corpus", 1)
 			}
@@ -509,7 +543,7 @@ func Corpus(r *lib.Run) {
 // /29+/30 configuration (pool 10.0.0.2-.5; first offers are .2 then .3), two clients: the
 // interleavings between OFFER and REQUEST, requests for the other client's address, a second client
 // identifier behind the same MAC, capture, expiry (MinuteTicker and the expiry hook), decline, release.  Thorough tier only (validates the model; the theorems cover every depth).
-func Exhaustive(r *lib.Run, mode int, depth int, nTokens int) {
+func Exhaustive(r *lib.Run, kind string, mode int, depth int, nTokens int) {
 	c := StdCfg(1, mode)
 	m1, m2 := net.HardwareAddr{2, 0, 0, 0, 0, 1}, net.HardwareAddr{2, 0, 0, 0, 0, 2}
 	a2, a3 := uint32(0x0a000002), uint32(0x0a000003)
@@ -531,7 +565,10 @@ func Exhaustive(r *lib.Run, mode int, depth int, nTokens int) {
 		Msg{Kind: 'D', Chaddr: m2, Xid: 0x22222222}.Token(),
 		Msg{Kind: 'R', Chaddr: m2, Xid: 0x22222222, Req: &a3, Sid: &c.HostIP}.Token(),
 		Msg{Kind: 'R', Chaddr: m1, Xid: 0x11111111, Req: &a2}.Token(), // reboot
+		Msg{Kind: 'R', Chaddr: m1, Xid: 0x44444444, Req: &a2, Sid: &c.HostIP}.Token(), // SELECT under a foreign xid
 	}
+	toks[4], toks[16] = toks[16], toks[4] // keep the foreign-xid SELECT ...
+	toks[13], toks[16] = toks[16], toks[13] // ... and the renewal inside the short alphabets
 	if nTokens < len(toks) {
 		toks = toks[:nTokens]
 	}
@@ -541,8 +578,8 @@ func Exhaustive(r *lib.Run, mode int, depth int, nTokens int) {
 	for w := 0; w < workers; w++ {
 		go func() {
 			for ops := range jobs {
-				r.Do("hist", append(c.Tokens(), ops...)...)
-				r.Stat("class.exhaustive", 1)
+				r.Do(kind, append(c.Tokens(), ops...)...)
+				r.Stat("class.exhaustive."+kind, 1)
 			}
 			done <- true
 		}()
